@@ -1,5 +1,6 @@
 import Emboss.Model.Fmt
 import Emboss.Spec.Fmt
+import Emboss.Spec.FmtEquivC
 import Driver.Util
 open Emboss.Fmt Driver
 
@@ -11,12 +12,15 @@ open Emboss.Fmt Driver
   `none` (the model says the Python raises), or `not-text` (the root handler did not
   return a string).
 * `TABLE` — evaluates the table obligations of Spec/Fmt.lean on the regenerated registry
-  (`tableTyped formatters`, `tableMatchesGrammar formatters grammar`): `ok`, or `bad …`
+  (`tableTyped formatters`, `tableMatchesGrammar formatters grammar`, `tableNormal formatters`,
+  `tableComment formatters`):
+  `ok`, or `bad …`
   naming the first offending entries.
-* `SANITYLEN …` — the same with the length comparison of fixes/C11-sanity-check-length.patch.
 * `SANITY <formatted tokens> <original tokens>` — each a `,`-separated list of
   `<hex symbol>:<hex text>` (`-` for the empty list).  Answer: `ok`, `differs <i>`,
-  `indexerror <i>`.
+  `countdiffers`.
+* `GLUE` / `GLUECHECK` — the terminal pairs some handler prints with nothing in between
+  (`gluedPairs`), and whether all of them are in the audited list (`gluedOK`).
 -/
 
 def hexVal (c : Char) : Option Nat :=
@@ -96,12 +100,16 @@ def showEntry (e : String × List String × String × Bool) : String :=
 def tableReport : String :=
   let tbl := Emboss.Generated.FmtTable.formatters
   let g := Emboss.Generated.FmtTable.grammar
-  if tableTyped tbl && tableMatchesGrammar tbl g then "ok"
+  if tableTyped tbl && tableMatchesGrammar tbl g && tableNormal tbl && tableComment tbl then "ok"
   else
     let untyped := (tbl.filter (fun e => !checkEntry e)).take 3
     let undropped := (tbl.filter (fun e => !dropOK e)).take 3
     let layoutLhs := (tbl.filter (fun e => isLayoutSym e.1)).take 3
+    let unnormal := (tbl.filter (fun e => !normOK e)).take 3
+    let uncomment := (tbl.filter (fun e => !commentOK e)).take 3
     "bad grammar-match=" ++ toString (tableMatchesGrammar tbl g) ++
+      " layout-or-documentation-argument-used=[" ++ "; ".intercalate (unnormal.map showEntry) ++ "]" ++
+      " comment-not-at-comment-position=[" ++ "; ".intercalate (uncomment.map showEntry) ++ "]" ++
       " untyped=[" ++ "; ".intercalate (untyped.map showEntry) ++ "]" ++
       " ignored-non-layout=[" ++ "; ".intercalate (undropped.map showEntry) ++ "]" ++
       " layout-lhs=[" ++ "; ".intercalate (layoutLhs.map showEntry) ++ "]"
@@ -110,13 +118,13 @@ def handle (line : String) : String :=
   match line.splitOn " " with
   | ["TABLE"] => tableReport
   | ["GLUE"] =>
-    "\t".intercalate ((gluedPairs Emboss.Generated.FmtTable.formatters Emboss.Generated.FmtTable.grammar).map
-      (fun p => p.1 ++ " " ++ p.2))
+    "\t".intercalate ((gluedPairs Emboss.Generated.FmtTable.formatters).map (fun p => p.1 ++ " " ++ p.2))
   | ["GLUECHECK"] =>
-    if gluedOK Emboss.Generated.FmtTable.formatters Emboss.Generated.FmtTable.grammar then "ok"
-    else "bad " ++ "\t".intercalate
-      (((gluedPairs Emboss.Generated.FmtTable.formatters Emboss.Generated.FmtTable.grammar).filter
-        (fun p => !(allowedGlued.contains p || knownBadGlued.contains p))).map (fun p => p.1 ++ " " ++ p.2))
+    let tbl := Emboss.Generated.FmtTable.formatters
+    if gluedOK tbl then "ok"
+    else "bad fixpoints-reached=" ++ toString (fixpointsReached (resolved tbl)) ++
+      " not-audited=" ++ "\t".intercalate
+      (((gluedPairs tbl).filter (fun p => !allowedGlued.contains p)).map (fun p => p.1 ++ " " ++ p.2))
   | "FMT" :: iw :: items =>
     match iw.toNat?, parseItems items [] none with
     | some iw, some t =>
@@ -131,16 +139,6 @@ def handle (line : String) : String :=
       match sanityCheck f o with
       | .ok => "ok"
       | .differs i => "differs " ++ toString i
-      | .indexError i => "indexerror " ++ toString i
-      | .countDiffers => "countdiffers"
-    | _, _ => "bad-op"
-  | ["SANITYLEN", f, o] =>
-    match parseToks f, parseToks o with
-    | some f, some o =>
-      match sanityCheckLen f o with
-      | .ok => "ok"
-      | .differs i => "differs " ++ toString i
-      | .indexError i => "indexerror " ++ toString i
       | .countDiffers => "countdiffers"
     | _, _ => "bad-op"
   | _ => "bad-op"
